@@ -19,5 +19,13 @@ def concerns(sig, text):
     return any(k in what for k in ("S_ev", "up", "lparked", "dparked")) or "watchdog" in sig
 
 
+def concerns_tran(sig, text):
+    what = sig.rsplit(":", 1)[-1]
+    return "S_ev" in what or "up" in what or "watchdog" in sig or ".dial" in sig or ".tick" in sig
+
+
 def run(v, tier, rng):
     run_life(v, tier, concerns)
+    # pipe events, redial and accept on the real inproc transport, incl. pipes closed in ADD_PRE on either side (wire/Inproc.tla)
+    from checks.inproc import run_inproc
+    run_inproc(v, tier, pred=concerns_tran, mc=False, plans=("reject", "sim"), scale=0.7)
